@@ -311,6 +311,16 @@ func BuiltinUniverses() []*Universe {
 				{Ins: ins(fund(0)), Fee: 4020, VSize: 200},
 				{Ins: ins(out(1, 1)), Fee: 500},
 			}}),
+		// A two-input transaction t4 that the pool does not hold is mined while each of
+		// its inputs is spent by a different pooled transaction (t1; t2 with child t3):
+		// every pooled conflict of every input has to be evicted.
+		defaults(Universe{Name: "blockconflict", NFund: 2, SlotParent: []int{0}, MaxOrphans: 1, MaxBlockTxs: 1, Standalone: true,
+			Txs: []TxSpec{
+				{Ins: ins(fund(0)), Fee: 1000},
+				{Ins: ins(fund(1)), Fee: 1000},
+				{Ins: ins(out(2, 0)), Fee: 1000},
+				{Ins: ins(fund(0), fund(1)), Fee: 500, VSize: 200},
+			}}),
 		// Orphans: a chain t1 -> t2 -> t3 with a conflicting spender t4 of t1's
 		// output and an oversized orphan t5.
 		defaults(Universe{Name: "orphans", NFund: 1, SlotParent: []int{0}, MaxOrphans: 2, MaxOrphanSize: 150, MaxBlockTxs: 1, Standalone: true,
